@@ -29,7 +29,8 @@ RULE = ("seeded random configurations: non-constant pilot vectors shorter than N
 REQUIRED = ["tile_checked", "tile_nonconstant_pilot", "prefix_checked:nonnegmean", "prefix_checked:assertion",
             "comparison_checked", "polling_checked", "interleave_checked", "contest_max_checked", "audit_max_checked",
             "estimate_strictly_between_1_and_N", "never_crossed_returns_N", "random_order_false_cases",
-            "contract:Assertion.find_sample_size", "raire_estimator_checked", "comparison_checked_assorter_bound_not_1", "audit_oneaudit_checked", "audit_oneaudit_both_rates_positive", "contest_oneaudit_checked"]
+            "contract:Assertion.find_sample_size", "raire_estimator_checked", "comparison_checked_assorter_bound_not_1", "audit_oneaudit_checked", "audit_oneaudit_both_rates_positive", "contest_oneaudit_checked",
+            "polling_same_assertion_asked_again_after_tally_revised"]
 ASSUMPTIONS = ["int(1/r) is the documented spacing of assumed errors", "n_big >= 1 for interleave_values (a polling "
                "assertion has winner tally > loser tally >= 0)", "rates are always passed explicitly for comparison audits"]
 N_CASES = {"quick": 64000, "thorough": 512000}
@@ -316,33 +317,57 @@ def run_polling(case, rng, rec):
         a = rng.randint(2, N)
         b = rng.randint(0, min(a - 1, N - a))
         tal = {"A": a, "B": b, "C": rng.randint(0, min(b, N - a - b))}
-    con.tally = tal
     asn = con.assertions["A v B"]
-    asn.margin = (tal["A"] - tal["B"]) / N
-    asn.test.u = asn.assorter.upper_bound
-    if asn.margin <= 0:
+    if tal["A"] - tal["B"] <= 0:
         rec.case(case, nontrivial=False)
         return
+    if not polling_one_tally(case, rec, con, asn, tal, N, tcfg):
+        return
+    if rng.random() < 0.5:
+        # the reported tally is revised and the SAME assertion asked again: same N and same winner-minus-loser difference
+        # (votes moved between the pair and the non-votes), or an arbitrary revision
+        if rng.random() < 0.7:
+            lo, hi = -tal["B"], (N - tal["A"] - tal["B"]) // 2
+            ds = [d for d in range(lo, hi + 1) if d != 0]
+            if not ds:
+                return
+            d = rng.choice(ds)
+            tal2 = {"A": tal["A"] + d, "B": tal["B"] + d, "C": 0}
+        else:
+            a = rng.randint(2, N)
+            tal2 = {"A": a, "B": rng.randint(0, min(a - 1, N - a)), "C": 0}
+        rec.count("polling_same_assertion_asked_again_after_tally_revised")
+        polling_one_tally(dict(case, revised_from=tal), rec, con, asn, tal2, N, tcfg)
+
+
+def polling_one_tally(case, rec, con, asn, tal, N, tcfg):
+    from shangrla.core.Audit import Assertion
+    con.tally = tal
+    asn.margin = (tal["A"] - tal["B"]) / N
+    asn.test.u = asn.assorter.upper_bound
     with np.errstate(all="ignore"):
         ok, got = rec.guard("c16.call:find_sample_size:polling", asn.find_sample_size, data=None, reps=None)
         if not ok:
             rec.case(case, nontrivial=False)
-            return
+            return False
         n0, nbig = tal["B"], tal["A"]
         pop = Assertion.interleave_values(n0, N - n0 - nbig, nbig, big=asn.assorter.upper_bound)
         ok, res = rec.guard("c16.call:test", asn.test.test, np.array(pop, dtype=float))
         if not ok:
-            return
+            return False
     want = first_crossing(np.asarray(res[1], dtype=float), con.risk_limit, N)
     rec.case(dict(case, N=N, tally=tal, test=tcfg, risk=con.risk_limit), nontrivial=(1 < want < N))
     rec.count("polling_checked")
     observe(rec, want, N)
     if sorted(pop) != sorted([0.0] * n0 + [0.5] * (N - n0 - nbig) + [float(asn.assorter.upper_bound)] * nbig):
         rec.violation("c16.polling", "interleaved_population_is_not_the_reported_tallies", {"tally": tal, "N": N})
-        return
+        return False
     if got != want:
         rec.violation("c16.polling", "estimate_is_not_first_crossing_on_interleaved_tallies",
-                      {"estimate": got, "first_crossing": want, "N": N, "tally": tal, "risk_limit": con.risk_limit, "test": tcfg})
+                      {"estimate": got, "first_crossing": want, "N": N, "tally": tal, "risk_limit": con.risk_limit, "test": tcfg,
+                       "revised_from": case.get("revised_from")})
+        return False
+    return True
 
 
 def run_interleave(case, rng, rec):
